@@ -49,6 +49,8 @@ def build(tokens_case):
 
 
 def check_case(case):
+    if case.get("kind") == "foreign-order":
+        return check_foreign_order(case)
     if case.get("kind") == "serializer":
         return check_serializer_case(case)
     toks = build(case["tokens"])
@@ -160,6 +162,71 @@ def decode_ser_case(data):
     return {"kind": "serializer", "text": "".join(parts), "walker": dec.pick(["etree", "dom"]), "opts": opts, "encoding": dec.pick([None, "utf-8", "ascii", "koi8-r"])}
 
 
+XLINK = "http://www.w3.org/1999/xlink"
+XMLNS = "http://www.w3.org/2000/xmlns/"
+XMLN = "http://www.w3.org/XML/1998/namespace"
+F_ATTRS = ["xlink:href", "xml:lang", "xmlns", "xmlns:xlink", "xlink:title", "href", "id", "y", "lang", "title", "zoomAndPan", "a", "type", "role"]
+
+
+def decode_foreign_case(data):
+    """foreign elements with adjusted (namespaced) and plain attributes that share local names, in generated source order"""
+    from vf.gen.soup import Dec
+    dec = Dec(data)
+    parts = []
+    for _ in range(1 + dec.below(3)):
+        root = dec.pick(["svg", "math"])
+        inner = dec.pick(["a", "g", "mi", "use", "text"])
+        def attrs():
+            names = []
+            for _ in range(2 + dec.below(5)):
+                a = dec.pick(F_ATTRS)
+                if a not in names:
+                    names.append(a)
+            return "".join(' %s="%s"' % (a, dec.pick(["1", "u", "en", "#t"])) for a in names)
+        parts.append("<%s%s><%s%s>t</%s></%s>" % (root, attrs(), inner, attrs(), inner, root))
+    return {"kind": "foreign-order", "text": "".join(parts), "walker": dec.pick(["etree", "dom"]), "quote": dec.pick(["legacy", "always"])}
+
+
+def check_foreign_order(case):
+    """Through parse -> walker -> HTMLSerializer(alphabetical_attributes=True): the attribute names written for every element, in order,
+    must be the element's attributes (as the etree backend parsed them) sorted by (namespace or '', local name).  Expected from the
+    etree tree whatever walker is used: a backend that loses or renames a namespaced attribute shows here as well."""
+    import warnings
+    from html5lib.serializer import HTMLSerializer
+    from vf import h5, obs
+    from vf.ref.tokenizer import RefTokenizer, normalize_newlines
+    text, walker = case["text"], case.get("walker", "etree")
+    ref_tree, _ = h5.parse(text, builder="etree", container="div")
+    want = []
+    for r in obs.flat(ref_tree):
+        if r[1] == "elem":
+            keys = sorted(((a[0], a[1]) for a in r[4]), key=lambda k: (k[0] or "", k[1]))
+            names = []
+            for k in keys:
+                # the serializer writes local names only (recorded finding C08-attr-prefix-dropped); a lexer keeps the first of equal
+                # names and lower-cases them
+                if k[1].lower() not in names:
+                    names.append(k[1].lower())
+            want.append((r[3].lower(), names))
+    tree, _ = h5.parse(text, builder=walker, container="div")
+    with warnings.catch_warnings():
+        warnings.simplefilter("ignore")
+        out = HTMLSerializer(alphabetical_attributes=True, omit_optional_tags=False, quote_attr_values=case.get("quote", "legacy")).render(h5.walk(tree, walker))
+    tok = RefTokenizer(normalize_newlines(out), cdata_allowed=lambda: True)
+    got = []
+    while True:
+        t = tok.next_token()
+        if t[0] == "eof":
+            break
+        if t[0] == "start":
+            got.append((t[1].lower(), [a[0].lower() for a in t[2]]))
+    if got != want:
+        k = next((i for i, (a, b) in enumerate(zip(got, want)) if a != b), min(len(got), len(want)))
+        return Verdict("fail", "%s walker, alphabetical_attributes=True: element %d is written as %s, its attributes sorted by (namespace, local name) are %s; input %s; output %s"
+                       % (walker, k, short(got[k:k + 1], 120), short(want[k:k + 1], 120), short(text, 200), short(out, 300)), "foreign-order:" + walker, nontrivial=True)
+    return Verdict("pass", nontrivial=True, sig=sig64("fo", out))
+
+
 def check_serializer_case(case):
     """every start tag the reference lexer reads in the output has its attribute names in code-point order (all attributes here are un-namespaced)"""
     import warnings
@@ -211,7 +278,7 @@ def run_shard(desc, seed, tier):
         from vf.gen.soup import sized_binary
 
         def fn(data):
-            case = decode_ser_case(data)
+            case = decode_ser_case(data) if data[:1] and data[0] % 3 else decode_foreign_case(data[1:])
             acc.add(case, check_case(case))
         drive(sized_binary(8, 70), fn, desc["n"], seed)
         return acc
